@@ -29,9 +29,12 @@ CONSTANTS MaxBatch,       \* contents per group
           ScriptSize,     \* bytes of the (fixed) origination script incl. its two length prefixes
           UniformSim      \* TRUE: one simulation result for all contents of a batch; FALSE: first / rest chosen separately
 
-\* simulation results <<consumed_milligas, paid_storage_size_diff, allocates (destination or originated contract)>>
-Sims == << <<0, 0, FALSE>>, <<1, 0, FALSE>>, <<100000, 0, FALSE>>, <<1000999, 300, TRUE>>,
-           <<1040000000, 59643, TRUE>>, <<168000, 0, TRUE>>, <<12345678, 16384, FALSE>> >>
+\* simulation results <<consumed_milligas, paid_storage_size_diff, allocates (destination or originated contract),
+\*                      number of internal operations the content emitted (each consuming IntMilligas, no storage)>>
+IntMilligas == 1500500
+Sims == << <<0, 0, FALSE, 0>>, <<1, 0, FALSE, 0>>, <<100000, 0, FALSE, 0>>, <<1000999, 300, TRUE, 0>>,
+           <<1040000000, 59643, TRUE, 0>>, <<168000, 0, TRUE, 0>>, <<12345678, 16384, FALSE, 0>>,
+           <<2000000, 0, FALSE, 1>>, <<100000, 77, TRUE, 2>> >>
 
 VARIABLES pc, keyKind, mode, kinds, simIx, chain, cont, i, feeAcc, out
 vars == <<pc, keyKind, mode, kinds, simIx, chain, cont, i, feeAcc, out>>
@@ -103,7 +106,7 @@ AutoStep ==
   /\ LET kind == kinds[i]
          s == SimOf(i)
          reserve == IF kind \in {"origination", "transaction", "transaction_kt"} THEN 100 ELSE 0
-         gas == CeilDiv(s[1], 1000) + reserve
+         gas == CeilDiv(s[1], 1000) + s[4] * CeilDiv(IntMilligas, 1000) + reserve     \* every result of the content counts, the internal ones too
          sto == s[2] + (IF s[3] THEN 257 ELSE 0) + reserve
          c == [cont[i] EXCEPT !.gas = gas, !.storage = sto, !.fee = 0] IN
      /\ cont' = [cont EXCEPT ![i] = c]
